@@ -135,6 +135,16 @@ TABLE = {
             "per point (fractions), the spec compares with Image, decides moved / unmoved per scope, orientations modulo a "
             "turn, derived quantities and the undo law.",
             "TLC, exact rational rotation tokens, fractions-based residual classification in the projection"),
+    "C06": ("SpatialIndex.tla / MC_SpatialIndex.tla / Trace_SpatialIndex.tla",
+            "Exact integer predicates (point-in-polygon with boundary, segment / polygon / disc intersection in doubled "
+            "coordinates) define the truth of every lookup on 12 lattice lanelet families; a route state machine "
+            "(polys = truth, index = what lookups consult) over all construction routes (list, one by one, deep copy, "
+            "pickle, cut-out, XML / protobuf read, remove, translate) is checked for index = polys after every route, six "
+            "deviation constants give the expected counterexamples. Every (family, route sequence, query) and a 9x9 probe "
+            "grid per shape kind are executed; TLC recomputes the truth from the lattice polygons and validates lookups, "
+            "containment and exported geometry three-valued (bands declared in the spec).",
+            "TLC, lattice geometry, shapely `covers` as projection of the exported geometry; known finding: exported "
+            "circle has half the radius"),
 }
 
 PENDING_REASON = "check not built yet in this round (specification module planned in DESIGN.md section 4); not claimed"
